@@ -104,3 +104,61 @@ theorem C04_cfloat_to_int_cfg_40_8 :
     truncZ (valToRat (toNativeIn c 11 52 0x3fffffffff)) = 1 ∧
     truncZ (valToRat (toNativeIn c 8 23 0x3fffffffff)) = 2 := by
   decide +kernel
+
+/-! ### long double (x86-64 80-bit): `to_native<long double>` = `toNativeLD`, the round trip through `fromLD` -/
+
+/-- read-back to long double, full statement: whenever long double holds the value of the encoding, to_native<long double>
+    returns it. False of the pinned code for es > 11 (see the counterexample): 2^exponent comes from the double `ipow`. -/
+def C04_cfloat_to_ld_full : Prop :=
+  ∀ (c : Cfg) (b : Nat), c.valid = true → c.es ≤ 15 → b < 2 ^ c.nbits →
+    ieeeVal 15 63 (ieeeEncode 15 63 (cfVal c b)) = cfVal c b → toNativeLD c b = cfVal c b
+
+/-- zeros, NaNs and infinities are read back like through double / float (the first three branches of to_native are
+    independent of the target type), every configuration -/
+theorem C04_cfloat_to_ld_special (c : Cfg) (b : Nat) (h : isZero c b = true ∨ isNan c b = true ∨ isInf c b = true) :
+    toNativeLD c b = toNative c b := by
+  unfold toNativeLD toNative
+  rcases h with h | h | h
+  · simp [h]
+  · by_cases hz : isZero c b = true
+    · simp [hz]
+    · simp [hz, h]
+  · by_cases hz : isZero c b = true
+    · simp [hz]
+    · by_cases hn : isNan c b = true
+      · simp [hz, hn]
+      · simp [hz, hn, h]
+
+/-- finite check (a test, not a theorem about all configurations): every encoding of cfloat<6,2> with subnormals and
+    supernormals reads back exactly through long double -/
+theorem C04_cfloat_to_ld_cfg_6_2 :
+    ∀ b : Fin 64, let c : Cfg := { nbits := 6, es := 2, bt := 8, sub := true, sup := true }
+      toNativeLD c b.val = cfVal c b.val := by
+  decide +kernel
+
+/-- known finding cfloat.to_native.ld_beyond_double: the smallest subnormal of cfloat<48,12> (2^-2081, a normal long
+    double) reads back as +0 (`subnormal_exponent[12]` is 0.0), 2^1024 in cfloat<64,15> reads back as +inf and 2^-1075 as 0
+    (`ipow` is a double) — long double holds all three -/
+theorem C04_cfloat_to_ld_beyond_double_counterexample :
+    (let c : Cfg := { nbits := 48, es := 12, bt := 16, sub := true, sup := true }
+     toNativeLD c 1 = .fin false 0 ∧ cfVal c 1 ≠ .fin false 0 ∧ ieeeVal 15 63 (ieeeEncode 15 63 (cfVal c 1)) = cfVal c 1) ∧
+    (let c : Cfg := { nbits := 64, es := 15, bt := 32, sub := true }
+     toNativeLD c 0x43ff000000000000 = .inf false ∧ cfVal c 0x43ff000000000000 = .fin false (pow2 1024) ∧
+     toNativeLD c 0x3bcc000000000000 = .fin false 0 ∧ cfVal c 0x3bcc000000000000 = .fin false (pow2 (-1075)) ∧
+     toNativeLD c 0x3bcd000000000000 = .fin false (pow2 (-1074))) := by
+  decide +kernel
+
+theorem C04_cfloat_to_ld_full_false : ¬ C04_cfloat_to_ld_full := by
+  intro h
+  have := h { nbits := 64, es := 15, bt := 32, sub := true } 0x43ff000000000000 (by decide) (by decide) (by decide) (by decide +kernel)
+  revert this
+  decide +kernel
+
+/-- known finding cfloat.from_ld.nan_masks: the signalling NaN of cfloat<8,4> read back as a long double (fraction bit 61)
+    converts to the QUIET NaN encoding; the quiet NaN survives -/
+theorem C04_cfloat_ld_snan_roundtrip_counterexample :
+    let c : Cfg := { nbits := 8, es := 4, bt := 8, sub := true }
+    toNativeLD c 0xff = .nan true ∧ toNativeLD c 0x7f = .nan false ∧
+    fromLD c UVerif.Generated.ieeeF80_qnanmask UVerif.Generated.ieeeF80_snanmask UVerif.Generated.ieeeF80_hmask (0x7fff <<< 63 + 2 ^ 61) = 0x7f ∧
+    fromLD c UVerif.Generated.ieeeF80_qnanmask UVerif.Generated.ieeeF80_snanmask UVerif.Generated.ieeeF80_hmask (0x7fff <<< 63 + 2 ^ 62) = 0x7f := by
+  decide +kernel
